@@ -1955,3 +1955,34 @@ def s_vd_is_empty(m, st, info, args):
          r"<alloc::raw_vec::RawVec<T, A> as std::ops::Drop>::drop")
 def s_drop_impl(m, st, info, args):
     return unit()
+
+
+@summary(r"std::array::iter::<impl std::iter::IntoIterator for \[T; N\]>::into_iter")
+def s_array_into_iter(m, st, info, args):
+    v = args[0]
+    if not isinstance(v, VecVal):
+        raise Unsupported("array into_iter on %r" % (v,))
+    return Obj("arr_iter", items=list(v.items), i=0)
+
+
+@summary(r"<std::array::IntoIter<T, N> as std::iter::Iterator>::next")
+def s_array_iter_next(m, st, info, args):
+    it = deref(m, args[0])
+    tid = ret_ty(m, info)
+    d = it.d
+    if d["i"] >= len(d["items"]):
+        return mk_none(m, tid)
+    x = d["items"][d["i"]]
+    d["i"] += 1
+    return mk_some(m, tid, x)
+
+
+@summary(r"<std::array::IntoIter<T, N> as std::iter::Iterator>::size_hint", r"<std::array::IntoIter<T, N> as std::iter::ExactSizeIterator>::len")
+def s_array_iter_len(m, st, info, args):
+    d = deref(m, args[0]).d
+    n = len(d["items"]) - d["i"]
+    if info["def"].endswith("::len"):
+        return n
+    tid = ret_ty(m, info)
+    opt = m.p.types[tid]["tys"][1]
+    return Agg(tid, 0, [n, mk_some(m, opt, n)])
